@@ -14,7 +14,7 @@ a `dump` line with the complete real ledger.  The model
   acct i general nonce aB aTS dB dTS commission(-|rate) allowances(-|j:amt,...)
   del e d shares | deb epoch d e shares
   init ok|fatal                    run InitChain
-  tx signer nonce fee <body> ok|err:<kind>
+  tx signer nonce fee gasLimit size <body> ok|err:<kind>
        body: transfer dst amt | burn amt | escrow e amt | reclaim e shares | allow b neg change | withdraw src amt
   epoch e
   begin proposer(-|i) numEligible voters(-|list) evidence(-|list) ok|fatal
@@ -77,7 +77,7 @@ def parseGenesis (ws : List String) : Ledger :=
     signingThresholdDen := getNat kv "thrD", minCommissionRate := getNat kv "mincom",
     slashAmount := getNat kv "slash", freezeInterval := getNat kv "freeze",
     burnAddr := getNat kv "burn", reserved := getList kv "reserved", pkOrder := getList kv "pkorder",
-    validators := getList kv "validators" }
+    validators := getList kv "validators", gasPerByte := getNat kv "gasbyte", gasCostOp := getNat kv "gascost" }
   { emptyLedger with
     n := getNat kv "n", common := getNat kv "common", govDeposits := getNat kv "gov",
     lastBlockFees := getNat kv "lbf", totalSupply := getNat kv "total", epoch := getNat kv "epoch", params := p }
@@ -216,13 +216,13 @@ def step (st : St) (line : String) : St × String :=
       ({ st with l := { l with deb := DebSt.enqueue l.deb { endEpoch := ep, delegator := d, escrow := e, shares := s } } }, "ok")
     | _ => fail "DIVERGE bad-op"
   | ["init", impl] => direct (genesis l) impl
-  | "tx" :: signer :: nonce :: fee :: rest =>
-    match signer.toNat?, nonce.toNat?, fee.toNat?, rest.getLast?, parseBody rest.dropLast with
-    | some signer, some nonce, some fee, some impl, some body =>
-      let (l', e) := applyTx l signer nonce fee body
+  | "tx" :: signer :: nonce :: fee :: gl :: sz :: rest =>
+    match [signer, nonce, fee, gl, sz].mapM String.toNat?, rest.getLast?, parseBody rest.dropLast with
+    | some [signer, nonce, fee, gl, sz], some impl, some body =>
+      let (l', e) := applyTx l signer nonce fee { limit := gl, size := sz } body
       if showErr e != impl then fail s!"DIVERGE tx result model={showErr e} impl={impl}"
       else ({ st with l := compact l', implBurned := st.implBurned + (if impl == "ok" then burnOf l body else 0) }, "ok")
-    | _, _, _, _, _ => fail "DIVERGE bad-op"
+    | _, _, _ => fail "DIVERGE bad-op"
   | ["epoch", e] =>
     match e.toNat? with
     | some e => ({ st with l := setEpoch l e }, "ok")
